@@ -93,6 +93,40 @@ impl Ord for Node {
     }
 }
 
+thread_local! {
+    static THASH: RefCell<Vec<usize>> = const { RefCell::new(Vec::new()) };
+}
+
+impl std::hash::Hash for Node {
+    fn hash<H: std::hash::Hasher>(&self, st: &mut H) {
+        THASH.with(|c| c.borrow_mut().push(self.id));
+        st.write_u64(self.id as u64);
+    }
+}
+
+/// counts the bytes fed to it: everything beyond the 8 bytes per `Node::hash` call is "extra"
+struct RecHasher(usize);
+impl std::hash::Hasher for RecHasher {
+    fn finish(&self) -> u64 {
+        0
+    }
+    fn write(&mut self, b: &[u8]) {
+        self.0 += b.len();
+    }
+}
+
+impl std::fmt::Display for Node {
+    fn fmt(&self, f: &mut std::fmt::Formatter<'_>) -> std::fmt::Result {
+        write!(f, "node{}", self.id)
+    }
+}
+
+impl std::fmt::Debug for Node {
+    fn fmt(&self, f: &mut std::fmt::Formatter<'_>) -> std::fmt::Result {
+        write!(f, "Node({})", self.id)
+    }
+}
+
 impl Clone for Node {
     fn clone(&self) -> Node {
         out(format!("tclone {}", self.id));
@@ -401,6 +435,16 @@ fn run_op(op: &Op, _in_dtor: bool) {
                     let w = match take(a[2]) { H::Weak(w) => w, _ => panic!("SCRIPT: not weak") };
                     with_rc(a[1], |o| o.weak.borrow_mut().push(w));
                 }
+                "self_take" => {
+                    let n = unsafe { &*cur_node() };
+                    let h = n.strong.borrow_mut().remove(num(a[1]));
+                    put(a[2], H::Rc(h));
+                }
+                "self_take_weak" => {
+                    let n = unsafe { &*cur_node() };
+                    let w = n.weak.borrow_mut().remove(num(a[1]));
+                    put(a[2], H::Weak(w));
+                }
                 "take_weak" => {
                     let k = num(a[2]);
                     let w = with_rc(a[1], |o| o.weak.borrow_mut().remove(k));
@@ -451,6 +495,22 @@ fn run_op(op: &Op, _in_dtor: bool) {
                 }
                 "strong_count" => out(format!("ret strong_count {}", with_rc(a[1], |r| Rc::strong_count(r)))),
                 "weak_count" => out(format!("ret weak_count {}", with_rc(a[1], |r| Rc::weak_count(r)))),
+                "hash" => {
+                    use std::hash::Hash;
+                    THASH.with(|c| c.borrow_mut().clear());
+                    let mut rh = RecHasher(0);
+                    with_rc(a[1], |r| r.hash(&mut rh));
+                    let ids: Vec<String> = THASH.with(|c| c.borrow().iter().map(|i| i.to_string()).collect());
+                    let extra = rh.0 as isize - 8 * ids.len() as isize;
+                    out(format!("ret hash thash={},extra={},ids={}", ids.len(), if extra == 0 { 0 } else { 1.max(extra / 8) }, if ids.is_empty() { "-".to_string() } else { ids.join("+") }));
+                }
+                "fmt_display" => out(format!("ret fmt_display {}:ok", with_rc(a[1], |r| format!("{}", r)).replace(' ', "_"))),
+                "fmt_debug" => out(format!("ret fmt_debug {}:ok", with_rc(a[1], |r| format!("{:?}", r)).replace(' ', "_"))),
+                "fmt_pointer" => {
+                    let same = with_rc(a[1], |r| format!("{:p}", *r) == format!("{:p}", &**r as *const Node));
+                    out(format!("ret fmt_pointer {}:ok", if same { "<ptr:value-of-self>" } else { "<ptr:other>" }));
+                }
+                "wfmt_debug" => out(format!("ret wfmt_debug {}:ok", with_weak(a[1], |w| format!("{:?}", w)).replace(' ', "_"))),
                 "w_strong_count" => out(format!("ret w_strong_count {}", with_weak(a[1], |w| w.strong_count()))),
                 "w_weak_count" => out(format!("ret w_weak_count {}", with_weak(a[1], |w| w.weak_count()))),
                 "ptr_eq" => out(format!("ret ptr_eq {}", with_rc(a[1], |x| with_rc(a[2], |y| Rc::ptr_eq(x, y))))),
@@ -617,10 +677,10 @@ fn run_script(name: String, ops: Vec<Op>, seed: u64) {
 }
 
 #[cfg(feature = "stdrc")]
-fn ring_at_scale(_n: usize, _stack_kb: usize) {}
+fn ring_at_scale(_n: usize, _stack_kb: usize, _noop_self: bool) {}
 
 #[cfg(not(feature = "stdrc"))]
-fn ring_at_scale(n: usize, stack_kb: usize) {
+fn ring_at_scale(n: usize, stack_kb: usize, noop_self: bool) {
     // C15 confirmation at scale: build a ring of n adopted objects and collect it on a small stack
     static DESTROYED: AtomicUsize = AtomicUsize::new(0);
     struct R {
@@ -635,10 +695,17 @@ fn ring_at_scale(n: usize, stack_kb: usize) {
         // Built back to front so that every object has exactly one strong handle (held by its predecessor):
         // no handle of an adopted object is dropped during construction (every such drop would trace the graph).
         let tail = Rc::new(R { next: RefCell::new(None) });
+        if noop_self {
+            unsafe { Rc::adopt_unchecked(&tail, &tail) };
+        }
         let tail_w = Rc::downgrade(&tail);
         let mut next = tail;
         for _ in 1..n {
             let node = Rc::new(R { next: RefCell::new(None) });
+            if noop_self {
+                // upstream's "no effect" same-handle self adoption on every member
+                unsafe { Rc::adopt_unchecked(&node, &node) };
+            }
             unsafe { Rc::adopt_unchecked(&node, &next) };
             *node.next.borrow_mut() = Some(next);
             next = node;
@@ -710,7 +777,11 @@ fn main() {
         return;
     }
     if args.len() >= 4 && args[1] == "--ring" {
-        ring_at_scale(args[2].parse().unwrap(), args[3].parse().unwrap());
+        ring_at_scale(args[2].parse().unwrap(), args[3].parse().unwrap(), false);
+        return;
+    }
+    if args.len() >= 4 && args[1] == "--ring-noop" {
+        ring_at_scale(args[2].parse().unwrap(), args[3].parse().unwrap(), true);
         return;
     }
     let path = &args[1];
